@@ -1,13 +1,15 @@
 """C18 — undeclared_variables never omits a variable the template reads (DESIGN.md §3 C18)."""
-import json, collections
+import json, collections, re
 
 READY = True
 
 META = {
     "technique": "Lean 4 proof (simulation between the scope-tracking analysis of compiler/meta.rs and a reference "
-                 "semantics of run-time name resolution, all templates of the single-file fragment incl. macros, all "
-                 "control flow) + recording-context oracle on generated templates + exact correspondence of the model "
-                 "analysis with the real report and of the model semantics with the recorded look-ups",
+                 "semantics of run-time name resolution: all templates incl. macros and call blocks called anywhere, "
+                 "all control flow, file sets) + the arms of meta.rs regenerated as a table that the Lean analysis "
+                 "provably interprets + recording-context oracle on 81 000 (quick) / 477 000 (thorough) generated "
+                 "templates and file sets + exact correspondence of the model analysis with the real report and "
+                 "containment of the recorded look-ups in the model semantics",
     "category": "proof",
     "text": "Kernel-checked, without exception (C18_full is a theorem): for every template (emit, for with filter/else/"
             "recursive/break/continue, if, with, set incl. tuple and ns.attr targets, set/filter blocks, autoescape, "
@@ -15,23 +17,52 @@ META = {
             "macros, call blocks, do, the name expressions of include/import/from-import/extends; every expression "
             "form) and every choice of branches, iteration counts, macro invocations, loop re-entries and block calls "
             "(nested to any depth), failing renders cut after any number of look-ups included, each context key the "
-            "reference semantics asks for is in findUndeclared and is the root of a name in findUndeclaredNested; every "
-            "dotted name of the nested report is an attribute path of the template; macro bodies ask the context for "
-            "nothing (closure visibility); an aborted execution's look-ups are a prefix; expression code emits no binding "
-            "instruction (regenerated tables).  Tie: the real AST of each generated case is run through the Lean model "
-            "and must give exactly the sets undeclared_variables(false) and (true) return; the model's closure analysis "
-            "must equal the Enclose/BuildMacro instructions of the compiled template; the keys and attribute paths a "
-            "recording context sees during real renders (render, Expression::eval, render_captured + render_block + "
-            "call_macro; four undefined modes; named/from_str; custom syntax; child templates) must be contained in the "
-            "real report (oracle) and in the union of the model semantics' look-ups over all choice trees.",
+            "reference semantics asks for is in findUndeclared and is the root of a name in findUndeclaredNested "
+            "(reads_subset_undeclared, reads_root_of_nested, abort_reads_prefix, nested_reported_are_paths, "
+            "analysis_no_panic).  NEW, moved from validated/argued to proved: (1) macro and call-block bodies run "
+            "where they are CALLED — reads_subset_undeclared_calls: while any statement runs (top level, loop body, "
+            "block, another macro's or the macro's own body, after the names it mentions were rebound) the choice "
+            "tree may call any macro / call block of the template, `caller` included, any number of times, nested "
+            "and recursive to any depth; a call runs in [closure frame = find_macro_closure \\ {caller} (+ caller "
+            "local), base frame] and macro_call_site_independent: what it asks does not depend on the call site "
+            "(before: body executions were accounted for at the declaration with an informal argument). "
+            "(2) Context::load as a function on structured frames (locals → loop → closure → context, globals "
+            "last): context_asked_iff_no_frame_resolves; the order of the checks, the frames eval_macro builds and "
+            "the code of compile_macro_expression/compile_macro/Context::enclose (Enclose per closure name, pins "
+            "undefined, BuildMacro before StoreLocal) are regenerated from the sources and proved equal to the "
+            "model's (closure_and_lookup_order_as_modelled).  (3) File sets — multi_file_sound: in ANY sequence of "
+            "activations of the files' units (top level / block bodies / macros), each entered with arbitrary "
+            "frames (whatever the including, importing, extending or parent template built), each include leaving "
+            "arbitrary names behind in the includer's frame, every look-up is in the report (both modes) of the "
+            "file whose code performed it (before: look-ups of other templates were oracle-only and the leak was a "
+            "comment).  (4) The transcription of meta.rs — analysis_arms_as_modelled: for every arm of track_walk "
+            "(19), tracker_visit_expr (15) and track_assign (5) the regenerated list of operations (children "
+            "visited and their order, push/pop positions, names assigned and when, cfg) equals the typed table of "
+            "MJ/Model/MetaArms.lean, and walkers_interpret_arms: the model's walk / nvars / targetAtoms ARE the "
+            "interpretation of those rows (before: hand transcription validated by the differential only); "
+            "Expr::Var, Expr::GetAttr and the 11 helper functions are pinned as control skeletons.  Unchanged: "
+            "macro_body_asks_nothing, expression_code_binds_nothing, builtins_do_not_read_context.  Tie: the real "
+            "AST of each generated case is run through the Lean model and must give exactly the sets "
+            "undeclared_variables(false) and (true) return; the model's closure analysis must equal the "
+            "Enclose/BuildMacro instructions of the compiled template; the keys and attribute paths a recording "
+            "context sees during real renders (render, Expression::eval, render_captured + render_block + "
+            "call_macro; four undefined modes; named/from_str; custom syntax; child templates; file sets with "
+            "per-file attribution through the instruction hook) must be contained in the real report of the "
+            "file that asked (oracle) and in the union of the model semantics' look-ups over all choice trees.",
     "design_ref": "DESIGN.md §3 C18",
-    "level_note": "Trusted: Lean kernel; hand transcription of meta.rs (track_walk & co.) and of the scoping behaviour of "
-                  "codegen.rs/context.rs into MJ/Model/Meta.lean — the analysis part is validated exactly on every "
-                  "generated template, the semantics part by containment of the recorded keys in the model's possible "
-                  "look-ups (templates with at most 3000 executions).  Expression evaluation is over-approximated by "
-                  "the look-up of every variable leaf; aborted renders are prefixes.  Not in the theorem (oracle only): "
-                  "recursive loops re-entered through loop(..), break/continue, blocks/include/import/extends, the "
-                  "nested=true mode, debug-mode error reports, globals.",
+    "level_note": "Trusted: Lean kernel; the hand-written reference semantics of name resolution (MJ/Model/Meta.lean "
+                  "exec: which frames codegen.rs/vm push where, evaluation order of right-hand sides) — validated by "
+                  "containment of the recorded keys in the model's possible look-ups on every generated template and "
+                  "file (templates with at most 3000 executions) and tied to the sources by the regenerated tables "
+                  "(binding instructions, context readers, load order, macro call frames, macro codegen); the table "
+                  "extractor lib/tables/c18.py; the views (field names of compiler/ast.rs → model AST) — validated by "
+                  "the exact analysis correspondence.  Over-approximations (sound): expression evaluation = look-up "
+                  "of every variable leaf; any macro of the template can be called at any statement (static table, "
+                  "values are not modelled); a file's units can be entered with ANY frames (no block-stack / include "
+                  "resolution in the model); macro closure = exactly find_macro_closure's names (the engine's shared "
+                  "closure object has at least those).  Not in any theorem (oracle only): debug-mode error reports "
+                  "(known finding debug-info:referenced-locals), host callables that read the context through "
+                  "State::lookup, globals (consulted after the context).",
 }
 
 
@@ -44,39 +75,151 @@ def parse_model(line):
     return d
 
 
-def run(r):
-    r.rule = ("seeded random templates over the whole single-file statement/expression grammar with a 12-name pool "
-              "shared by targets and reads (plus loop/self/caller), each rendered under Lenient with 3 recording "
-              "contexts (all truthy / mixed kinds / sparse+falsy); a case = one template, non-trivial when it parsed, "
-              "is distinct, and at least one render asked the context for a key")
-    r.assumptions = [
-        "the look-ups of OTHER templates (included, imported, extended) belong to those templates' own reports",
-        "expression-level control flow only skips look-ups (the model looks every variable leaf up); that expression "
-        "code cannot bind names is tied to codegen.rs/vm/mod.rs by the regenerated instruction tables",
-        "requests (loop re-entries, self.name()) are served with the frames of the start of their statement",
-    ]
-    r.regen_tables(["C18_EXPR_FUNCTIONS", "C18_EXPR_CALLEES", "C18_EXPR_INSTRUCTIONS", "C18_BINDING_INSTRUCTIONS",
-                    "C18_CONTEXT_READERS", "C18_BUILTIN_FILES"])
-    r.lean_prove("MJ.Props.C18", "MJ/Audit/C18.lean", extra_targets=["drive_c18"])
-    exe = r.cargo_build("c18")
-    if exe is None:
+ARM_TABLES = ["C18_TRACK_WALK_ARMS", "C18_VISIT_EXPR_ARMS", "C18_TRACK_ASSIGN_ARMS", "C18_TRACKER_HELPERS"]
+LIST_TABLES = ["C18_LOAD_ORDER", "C18_MACRO_CALL_FRAMES", "C18_MACRO_CODEGEN"]
+
+
+def point_at_arms(r, status):
+    """name the arm of meta.rs (or the run-time table) that differs from what the Lean model interprets;
+    the theorems analysis_arms_as_modelled / closure_and_lookup_order_as_modelled fail in that case"""
+    lines = r.driver("drive_c18", "", args=["arms"])
+    if lines is None:
         return
-    rc, out, err = r.harness(exe, ["gen", r.tier])
-    if rc != 0:
-        r.broken.append(f"harness c18 exited {rc}: {err[-300:]}")
-        return
-    cases = []
-    for line in out.splitlines():
-        h, _, j = line.partition("\t")
-        cases.append((h, json.loads(j)))
-    usable = [(h, d) for h, d in cases if d.get("parse") == "ok" and not d.get("unsupported")]
-    model = r.driver("drive_c18", "".join(d["ast"] + "\n" for _, d in usable))
-    if model is None or len(model) != len(usable):
+    model = collections.defaultdict(dict)
+    for ln in lines:
+        parts = ln.split("\t")
+        if len(parts) != 4:
+            continue
+        table, variant, cfg, ops = parts
+        model[table][variant] = (cfg, [o for o in ops.split("¦") if o != ""] if ops else [])
+    n_rows = 0
+    for table in ARM_TABLES:
+        src = status["items"].get(table)
+        if src is None:
+            continue
+        src = {row[0]: (row[1], list(row[2])) for row in src}
+        for variant in sorted(set(src) | set(model[table])):
+            n_rows += 1
+            if variant not in src:
+                r.broken.append(f"{table}: meta.rs has no arm `{variant}` any more (the model has {model[table][variant][1]})")
+            elif variant not in model[table]:
+                r.broken.append(f"{table}: meta.rs has a new arm `{variant}` {src[variant][1]} that the model does not know")
+            elif src[variant] != model[table][variant]:
+                r.broken.append(f"{table}: arm `{variant}` of meta.rs is now cfg={src[variant][0]!r} {src[variant][1]} "
+                                f"but the Lean model interprets cfg={model[table][variant][0]!r} {model[table][variant][1]}")
+    for table in LIST_TABLES:
+        src = status["items"].get(table)
+        if src is None:
+            continue
+        n_rows += 1
+        want = model[table].get("", ("", []))[1]
+        if list(src) != want:
+            r.broken.append(f"{table}: the source now gives {list(src)} but the Lean model has {want}")
+    r.extra["arm_rows_compared"] = n_rows
+
+
+def shape_fields(shape):
+    parts = shape.split("|")
+    d = {"kind": parts[0]}
+    for p in parts[1:]:
+        if "=" in p:
+            k, _, v = p.partition("=")
+            d[k] = v
+        else:
+            d["probes"] = p
+    return d
+
+
+def process_chunk(r, cases, cnt, scope_matrix):
+    cnt["seen"] += len(cases)
+    # model input: one line per single-file template, one line per file of a file set
+    model_in = []
+    for h, d in cases:
+        if d.get("set"):
+            for f in d.get("files", []):
+                if "ast" in f:
+                    model_in.append(f["ast"])
+        elif d.get("parse") == "ok" and not d.get("unsupported"):
+            model_in.append(d["ast"])
+    model = r.driver("drive_c18", "".join(a + "\n" for a in model_in))
+    if model is None or len(model) != len(model_in):
         r.broken.append("model driver output does not line up with the harness cases")
         model = None
     mi = 0
-    tie_checked = sem_checked = sem_skipped = closure_checked = 0
     for h, d in cases:
+        if d.get("set"):
+            # ------------------------------------------------------------------ file sets
+            src = bytes.fromhex(h).decode("utf-8", "replace").replace("\x1f", " := ").replace("\x1e", " ;; ")
+            if d.get("parse") != "ok":
+                r.count(None, False)
+                r.hist["set"]["not loaded: " + d.get("error", "?")[:40]] += 1
+                continue
+            glob = set(d["globals"])
+            anyread = False
+            for part in d.get("cfg", "?").split("/")[:1]:
+                r.hist["set_config"][part] += 1
+            for o in d["outcome"]:
+                r.hist["set_render"][o if o == "ok" else o.split(">")[0]] += 1
+            for k in d.get("unattributed", []):
+                r.oracle_failure(h, f"a look-up of `{k}` could not be attributed to a file of the set {src!r}", "unattributed-read")
+            for f in d["files"]:
+                m = None
+                if "ast" in f:
+                    m = parse_model(model[mi]) if model is not None else None
+                    mi += 1
+                if "und" not in f:
+                    r.oracle_failure(h, f"analysis of {f['name']} panicked: {f.get('analysis')}", "analysis-panic")
+                    continue
+                und, nested = set(f["und"]), set(f["nested"])
+                allreads = set().union(*[set(x) for x in f["reads"]]) if f["reads"] else set()
+                anyread = anyread or bool(allreads)
+                cnt["set_files"] += 1
+                r.hist["set_reads_by_file"][f["name"] + (": asked" if allreads else ": nothing asked")] += 1
+                for ci, keys in enumerate(f["reads"]):
+                    for k in keys:
+                        if k.startswith("<"):
+                            r.oracle_failure(h, f"context was {k} while rendering {src!r}", "context-introspection")
+                        elif k in glob:
+                            r.hist["oracle"]["global"] += 1
+                        elif k not in und:
+                            r.oracle_failure(h, f"render (context {ci}) of the file set {src!r}: the code of `{f['name']}` asked "
+                                                f"the context for `{k}` but undeclared_variables(false) of that file = {sorted(und)}",
+                                             "unreported-read-multifile")
+                        else:
+                            r.hist["oracle"]["reported (file set)"] += 1
+                            if not any(n == k or n.startswith(k + ".") for n in nested):
+                                r.oracle_failure(h, f"file set {src!r}: `{f['name']}` asked for `{k}` but no name of its "
+                                                    f"undeclared_variables(true) = {sorted(nested)} starts with it",
+                                                 "unreported-read-nested-multifile")
+                if m is not None:
+                    if "error" in m:
+                        r.model_disagreement(h, "real parser accepted " + repr(f["src"]), "driver: " + m["error"])
+                        continue
+                    cnt["tie"] += 1
+                    if set(m["und"].split()) != und:
+                        r.model_disagreement(h, f"{f['name']}: undeclared_variables(false)=" + " ".join(sorted(und)),
+                                             "findUndeclared=" + m["und"])
+                    if set(m["nested"].split()) != nested:
+                        r.model_disagreement(h, f"{f['name']}: undeclared_variables(true)=" + " ".join(sorted(nested)),
+                                             "findUndeclaredNested=" + m["nested"])
+                    if "may" in m and not m["may"].startswith("SKIP"):
+                        cnt["sem"] += 1
+                        r.hist["semantics_tie"]["checked (file of a set)"] += 1
+                        extra = allreads - set(m["may"].split()) - glob - {k for k in allreads if k.startswith("<")}
+                        if extra:
+                            r.model_disagreement(h, f"file set {src!r}: the code of `{f['name']}` asked the context for "
+                                                 + " ".join(sorted(extra)),
+                                                 "no activation of that file's units in the model looks these up (may="
+                                                 + m["may"] + ")")
+                    elif "may" in m:
+                        cnt["skip"] += 1
+            cnt["sets"] += 1
+            r.count(h, anyread)
+            if cnt["sets"] % 331 == 7 and len(r.samples) < 12:
+                r.sample({"file_set": src, "per_file": {f["name"]: {"undeclared": f.get("und"), "asked_by_its_code": f["reads"]}
+                                                        for f in d["files"]}, "outcome": d["outcome"]})
+            continue
+        # ---------------------------------------------------------------------- single-file templates
         src = bytes.fromhex(h).decode("utf-8", "replace")
         if d.get("parse") != "ok":
             r.count(None, False)
@@ -85,7 +228,17 @@ def run(r):
                 r.oracle_failure(h, "parser panicked: " + d.get("error", ""), "parser-panic")
             continue
         r.hist["parse"]["ok"] += 1
-        r.hist["subject"]["expression" if src.startswith("#expr# ") else "template"] += 1
+        shape = d.get("shape") or ""
+        special = shape.startswith("special|")
+        if special:
+            sp = shape.split("|")
+            r.hist["subject"]["special-name " + ("expression" if src.startswith("#expr# ") else "template")] += 1
+            r.hist["special_name"][sp[1]] += 1
+            r.hist["special_wrapper"][sp[3] if len(sp) > 3 else "?"] += 1
+            shape = ""
+        else:
+            r.hist["subject"]["expression" if src.startswith("#expr# ") else
+                              ("systematic template" if shape else "template")] += 1
         if d.get("unsupported"):
             r.count(None, False)
             continue
@@ -102,11 +255,49 @@ def run(r):
             r.hist["config"][part] += 1
         allreads = set().union(*[set(x) for x in d["reads"]]) if d["reads"] else set()
         r.count(h, bool(allreads))
-        for k, v in d["kinds"].items():
-            r.hist["node"][k] += v
+        if not shape and not special:
+            for k, v in d["kinds"].items():
+                r.hist["node"][k] += v
         for o in d["outcome"]:
             r.hist["render"][o.split(":")[0] + (":" + o.split(":")[1] if o.startswith("err:") else "")] += 1
         r.hist["reads_per_template"][min(len(allreads), 8)] += 1
+        # ---- distribution: how sharp is the report, how branch-dependent are the look-ups
+        own = {k for k in allreads if k not in glob and not k.startswith("<")}
+        slack = len(und - allreads)
+        r.hist["report_vs_asked"]["every reported name was asked in some render" if slack == 0 else
+                                  f"{min(slack, 4)}{'+' if slack >= 4 else ''} reported name(s) never asked"] += 1
+        plain = [set(x) for x in d["reads"][:4]]
+        if len(plain) == 4:
+            some = set().union(*plain)
+            every = set.intersection(*plain)
+            dep = (some - every) & und
+            if dep:
+                r.hist["branch_dependence"]["some reported name is asked only in some of the 4 contexts"] += 1
+                if dep & (plain[3] - plain[0]):
+                    r.hist["branch_dependence"]["… asked with all-empty/falsy values but not with all-truthy ones (else side)"] += 1
+                if dep & (plain[0] - plain[3]):
+                    r.hist["branch_dependence"]["… asked with all-truthy values but not with all-empty ones (taken side)"] += 1
+            else:
+                r.hist["branch_dependence"]["every asked name is asked in all 4 contexts"] += 1
+            if shape:
+                sf = shape_fields(shape)
+                if "x" not in und:
+                    st = "x not reported, never asked (bound at every read)"
+                elif "x" in every:
+                    st = "x reported, asked in all 4 contexts"
+                elif "x" in some:
+                    st = "x reported, asked only in some contexts (branch/iteration dependent)"
+                else:
+                    st = "x reported, asked in no context (only a not-taken path reads it unbound, or over-approximation)"
+                r.hist["scope_status"][st] += 1
+                col = 0 if "not reported" in st else (1 if "all 4" in st else (2 if "only in some" in st else 3))
+                for dim, key in (("construct", sf["kind"]), ("wrapper", sf.get("wrap", "?")),
+                                 ("observer", sf.get("obs", "?")),
+                                 ("probes", sf.get("probes", "?") + " pre=" + sf.get("pre", "?") + " post=" + sf.get("post", "?")
+                                  + " out=" + sf.get("out", "?"))):
+                    scope_matrix[dim].setdefault(key, [0, 0, 0, 0])[col] += 1
+                r.hist["scope_construct"][sf["kind"]] += 1
+                r.hist["scope_wrapper"][sf.get("wrap", "?")] += 1
         if len(r.samples) < 10 and len(src) < 120 and allreads and (mi % 37 == 1 or mi <= 3):
             r.sample({"template": src, "undeclared": sorted(und), "recorded": [sorted(x) for x in d["reads"]],
                       "outcome": d["outcome"]})
@@ -115,7 +306,7 @@ def run(r):
             if "error" in m:
                 r.model_disagreement(h, "real parser accepted " + repr(src), "driver: " + m["error"])
             else:
-                tie_checked += 1
+                cnt["tie"] += 1
                 mund = set(m["und"].split())
                 mnested = set(m["nested"].split())
                 if mund != und:
@@ -126,7 +317,7 @@ def run(r):
                                          "findUndeclaredNested=" + " ".join(sorted(mnested)))
                 # ---- correspondence C: closure analysis of the model == what the code generator emitted
                 if "macros" in d:
-                    closure_checked += 1
+                    cnt["closure"] += 1
                     mm = sorted(x for x in m.get("macros", "").split(";") if x)
                     mm = [":".join(x.split(":")[:2] + [",".join(sorted(x.split(":")[2].split(","))) if x.split(":")[2] else ""]) for x in mm]
                     if sorted(mm) != sorted(d["macros"]):
@@ -186,10 +377,10 @@ def run(r):
         # ---- correspondence B: recorded keys ⊆ look-ups the model semantics can perform
         if m is not None and "may" in m:
             if m["may"].startswith("SKIP"):
-                sem_skipped += 1
+                cnt["skip"] += 1
                 r.hist["semantics_tie"][m["may"]] += 1
             else:
-                sem_checked += 1
+                cnt["sem"] += 1
                 r.hist["semantics_tie"]["checked"] += 1
                 may = set(m["may"].split())
                 extra = allreads - may - set(d.get("foreign", [])) - {k for k in allreads if k.startswith("<")}
@@ -200,14 +391,89 @@ def run(r):
                 if not may <= set(m["und"].split()):
                     r.broken.append(f"model look-ups {sorted(may)} not within findUndeclared for {src!r} "
                                     "(contradicts the proved theorem: driver/model mismatch)")
+
+
+def run(r):
+    r.rule = ("(a) hand-written corpus; (b) seeded random templates over the whole single-file statement/expression "
+              "grammar with a 12-name pool shared by targets and reads (plus loop/self/caller); (c) the systematic "
+              "scope product of harness/src/bin/c18_sys.inc: binding construct for `x` (45 kinds) × probe reads of `x` "
+              "in its header / body / else branch × read or re-binding before × read after × observer (macro declared "
+              "before/after and called after, block rendered through self before / declared before) × wrapper (16: "
+              "if/elif/else, for body/else, with, macro, call block, block, set/filter block, autoescape) × read "
+              "outside before/after — quick: all 48 696 templates with at most one read of `x` outside the construct "
+              "(the report is a flat set: a second unbound read would hide a wrong scope) + a hash-selected 12 000 of "
+              "the other 311 880, thorough: all 360 576; (c') 9 special names (loop self caller super varargs kwargs "
+              "namespace range x) × 33 expression forms × (Expression API + 5 statement positions × 10 surroundings); "
+              "(d) 1 344 file sets "
+              "(main × included × imported × parent template).  Each template is rendered with 4 recording contexts "
+              "(all truthy+non-empty / mixed kinds / sparse+falsy / all empty+falsy) plus render_captured + "
+              "render_block + call_macro; a case = one template or one file set, non-trivial when it parsed, is "
+              "distinct, and at least one render asked the context for a key")
+    r.assumptions = [
+        "expression-level control flow only skips look-ups (the model looks every variable leaf up); that expression "
+        "code cannot bind names is tied to codegen.rs/vm/mod.rs by the regenerated instruction tables",
+        "requests (loop re-entries, self.name(), macro calls) are served with the frames of the start of their statement",
+        "the engine's closure object has at least the entries find_macro_closure computes (Enclose per name, "
+        "Context::enclose pins undefined too: regenerated table C18_MACRO_CODEGEN)",
+    ]
+    status = r.regen_tables(["C18_EXPR_FUNCTIONS", "C18_EXPR_CALLEES", "C18_EXPR_INSTRUCTIONS", "C18_BINDING_INSTRUCTIONS",
+                             "C18_CONTEXT_READERS", "C18_BUILTIN_FILES"] + ARM_TABLES + LIST_TABLES)
+    proved = r.lean_prove("MJ.Props.C18", "MJ/Audit/C18.lean", extra_targets=["drive_c18"])
+    point_at_arms(r, status)
+    exe = r.cargo_build("c18")
+    if exe is None:
+        return
+    rc, out, err = r.harness(exe, ["count", r.tier])
+    mt = re.search(r"sequence=(\d+) systematic-product=(\d+) sparse=(\d+)", out or "")
+    if rc != 0 or not mt:
+        r.broken.append(f"harness c18 count exited {rc}: {err[-300:]}")
+        return
+    total = int(mt.group(1))
+    r.extra["sequence_length"] = total
+    r.extra["systematic_product"] = int(mt.group(2))
+    r.extra["systematic_sparse"] = int(mt.group(3))
+    st = {"tie": 0, "sem": 0, "skip": 0, "closure": 0, "sets": 0, "set_files": 0, "seen": 0}
+    # systematic stream: per construct / wrapper / observer / probe pattern, how often `x` is
+    # [not reported & never asked, reported & asked in all 4 contexts, asked in some only, asked in none]
+    scope_matrix = {"construct": {}, "wrapper": {}, "observer": {}, "probes": {}}
+    CHUNK = 60000
+    for start in range(0, total, CHUNK):
+        rc, out, err = r.harness(exe, ["gen", r.tier, str(start), str(CHUNK)])
+        if rc != 0:
+            r.broken.append(f"harness c18 exited {rc}: {err[-300:]}")
+            return
+        cases = []
+        for line in out.splitlines():
+            h, _, j = line.partition("\t")
+            cases.append((h, json.loads(j)))
+        del out
+        process_chunk(r, cases, st, scope_matrix)
+        del cases
+    if st["seen"] != total:
+        r.broken.append(f"harness delivered {st['seen']} of {total} cases")
+    tie_checked, sem_checked, sem_skipped, closure_checked = st["tie"], st["sem"], st["skip"], st["closure"]
+    sets_checked, set_files_checked = st["sets"], st["set_files"]
     r.extra["analysis_tie_checked"] = tie_checked
     r.extra["closure_tie_checked"] = closure_checked
     r.extra["semantics_tie_checked"] = sem_checked
     r.extra["semantics_tie_skipped"] = sem_skipped
+    r.extra["file_sets_checked"] = sets_checked
+    r.extra["scope_matrix_columns"] = ["x not reported and never asked", "x reported, asked in all 4 contexts",
+                                       "x reported, asked in some contexts only", "x reported, asked in no context"]
+    r.extra["scope_matrix"] = {dim: dict(sorted(tab.items())) for dim, tab in scope_matrix.items()}
+    r.extra["files_of_sets_checked"] = set_files_checked
     if tie_checked == 0:
         r.broken.append("no template reached the analysis correspondence")
     if sem_checked * 100 < tie_checked * 95:
         r.broken.append(f"semantics tie evaluated on only {sem_checked} of {tie_checked} templates")
+    tot = sum(r.hist["scope_status"].values()) or 1
+    r.log("scope distribution over %d systematic templates: " % tot
+          + "; ".join(f"{k}: {v} ({100.0 * v / tot:.1f}%)" for k, v in r.hist["scope_status"].most_common()))
+    r.log("branch dependence: " + "; ".join(f"{k}: {v}" for k, v in r.hist["branch_dependence"].most_common()))
+    if r.tier == "quick" and r.hist["subject"]["systematic template"] < 40000:
+        r.broken.append(f"only {r.hist['subject']['systematic template']} systematic templates were generated (wanted >= 40000)")
+    if sets_checked < 1000:
+        r.broken.append(f"only {sets_checked} file sets were rendered")
 
 
 def replay(r, path):
